@@ -257,13 +257,18 @@ func (f *sdFam) Apply(st M) M {
 		// gauge accounts may have been removed from the gauge list by the block itself: measure via label
 		before := f.c.Balances(f.ctx, []string{"ujkl"})["gauges"]["ujkl"]
 		h := f.ctx.BlockHeight() + 1
-		nctx := f.ctx.WithBlockHeight(h).WithBlockTime(f.ctx.BlockTime().Add(f.step))
+		// a panic in BeginBlock halts the node: nothing of that block is committed
+		cctx, write := f.ctx.CacheContext()
+		nctx := cctx.WithBlockHeight(h).WithBlockTime(f.ctx.BlockTime().Add(f.step))
 		var pan interface{}
 		func() {
 			defer func() { pan = recover() }()
 			storage.BeginBlocker(nctx, k)
 		}()
-		f.ctx = nctx
+		if pan == nil {
+			write()
+			f.ctx = f.ctx.WithBlockHeight(h).WithBlockTime(f.ctx.BlockTime().Add(f.step))
+		}
 		after := f.c.Balances(f.ctx, []string{"ujkl"})["gauges"]["ujkl"]
 		ev = M{"a": "block", "rel": before - after, "reward": h%f.par.C == 0, "ok": pan == nil, "x": x}
 		if pan != nil {
